@@ -62,7 +62,8 @@ def ev(parts, env: Env) -> str:
 # ----------------------------------------------------------------------------- PROGRAM-ARGUMENT atoms
 # (source text, [value, ...])   one source element may denote several arguments (list reference)
 
-# the symbols every scenario may reference:  S0 S1 S2 strings (symbolic values),
+# the symbols every scenario may reference:  S0 S1 S2 S3 strings (S0, S1: symbolic values, used in arguments and
+#   command lines; S2, S3: used in stdin texts - symbolic in K2, catalogue values where the text crosses the file layer),
 #   L = list  [S0, 'l 2', S1]        defined by   def list L = @[S0]@ 'l 2' @[S1]@
 #   P = path  act/pfile              defined by   def path P = -rel-act pfile
 #   E = list  []                     defined by   def list E =
@@ -127,16 +128,17 @@ GEN_OUT = 'generated line 1\ngenerated 2'
 FILE_TXT = 'contents of f.txt\nline 2\n'
 
 T = {
-    'string': ('"text of @[S0]@ stdin"', [C('text of '), S(0), C(' stdin')], None),
-    'string-sq': ("'hard @[S0]@\\n'", [C('hard @[S0]@\\n')], None),
+    'string': ('"text of @[S2]@ stdin"', [C('text of '), S(2), C(' stdin')], None),
+    'string-sq': ("'hard @[S2]@\\n'", [C('hard @[S2]@\\n')], None),
     'empty': ("''", [C('')], None),
     'sym': ('@[S2]@', [S(2)], None),
-    'here-doc': ('<<EOF\nfirst line\n  second @[S1]@ line\nEOF', [C('first line\n  second '), S(1), C(' line\n')], None),
+    'sym3': ('@[S3]@', [S(3)], None),
+    'here-doc': ('<<EOF\nfirst line\n  second @[S3]@ line\nEOF', [C('first line\n  second '), S(3), C(' line\n')], None),
     'file': ('-contents-of -rel-home f.txt', [C(FILE_TXT)], None),
     'program': ('-stdout-from % gen g1 @[S0]@', [C(GEN_OUT)], ('gen', [[C('gen')], [C('g1')], [S(0)]])),
 }
 # sources whose value can be taken without a file system / a process (kernel K2)
-PURE_TEXT_SOURCES = ('string', 'string-sq', 'empty', 'sym', 'here-doc')
+PURE_TEXT_SOURCES = ('string', 'string-sq', 'empty', 'sym', 'sym3', 'here-doc')
 
 # ----------------------------------------------------------------------------- transformers
 # name -> (source text, python function)
